@@ -126,7 +126,9 @@ def run_cases(ctx, lib, tag, cases):
     bool * bool * nat).  Evaluates them in batches; sets case["res"] = (equal, wf, first_diff)
     or None when Coq did not answer."""
     files = []
-    lib.coq_make(["theories/PassFlatCmp.vo", "theories/PassMultiAssign.vo", "theories/PassCondReduce.vo"])
+    if not getattr(ctx, "_flatpass_built", False):
+        lib.coq_make(["theories/PassFlatCmp.vo", "theories/PassMultiAssign.vo", "theories/PassCondReduce.vo"])
+        ctx._flatpass_built = True
     for b in range(0, len(cases), BATCH):
         text = HEADER
         for j, c in enumerate(cases[b:b + BATCH]):
@@ -223,6 +225,11 @@ FIXED = [
 ]
 
 
+def capture_probe(ctx, lib, which):
+    extra_runs(ctx, lib)
+    return ctx._flatpass_probes[which]
+
+
 def extra_runs(ctx, lib):
     """programs that exercise the two passes (the generator of checks/c02.py only compares
     variables with integers): normalised by the real Polar with per-pass snapshots; computed
@@ -238,7 +245,11 @@ def extra_runs(ctx, lib):
         if t not in texts:
             texts.append(t)
     tasks = [{"kind": "analyze", "text": t, "goals": [], "solve": False, "snapshots": True, "opts": {}, "timeout": 60} for t in texts]
+    # the two capture probes (tasks_flatpass.py) ride on the same worker pool
+    tasks += [{"kind": "capture_probe", "which": w, "timeout": 60} for w in ("ma", "cr")]
     res = lib.run_tasks(tasks, timeout=60)
+    ctx._flatpass_probes = dict(zip(("ma", "cr"), res[-2:]))
+    res = res[:-2]
     runs, refused = [], {}
     for t, r in zip(texts, res):
         if "error" in r or "exception" in r or not r.get("snapshots"):
